@@ -150,6 +150,30 @@ fn inputs(ctx: &Ctx) -> Vec<Input> {
         rows.extend(uniq(8, &mut rng));
         out.push(Input { name: "keys-with-leading-and-trailing-blanks", files: vec![rows.clone(), rows.iter().rev().take(7).cloned().collect()], same_path_twice: false, terminators: 0 });
     }
+    // CRLF files of ~160 KB in which, at EVERY multiple of 4096 bytes (the usual sizes of read buffers are multiples of it), the
+    // line ending straddles the boundary: the CR is the last byte before it, the LF is the last byte before it, or the CR is
+    // the first byte after it (the three cases rotate). The line lengths are solved once for the lines of `fst set`
+    // (key CR LF) and once for those of `fst map` (key , digit CR LF).
+    for (name, extra) in [("crlf-line-endings-straddling-every-4096-byte-boundary-of-set-input", 0usize), ("crlf-line-endings-straddling-every-4096-byte-boundary-of-map-input", 2)].iter() {
+        let mut rows: Vec<(String, u64)> = vec![];
+        let mut off = 0usize;
+        let mut c = 0usize;
+        while off < 40 * 4096 {
+            let m = off / 4096 + 1;
+            let delta = [0isize, -1, 1][(m / 2) % 3];
+            // the CR of this line sits at off + L + extra; wanted: 4096 m - 1 + delta
+            let r = (4096 * m) as isize - 1 + delta - off as isize - *extra as isize;
+            let l = if r >= 6 && r <= 26 { r as usize } else { 6 + rng.usize(7) };
+            let mut k = format!("{:05x}", c);
+            while k.len() < l {
+                k.push(*rng.pick(b"ghijklmnopqrstuvwxyz") as char);
+            }
+            rows.push((k, (c % 10) as u64));
+            c += 1;
+            off += l + extra + 2;
+        }
+        out.push(Input { name, files: vec![rows], same_path_twice: false, terminators: 1 });
+    }
     // more batches in one phase than a 15-bit counter or a 32768-slot queue holds
     out.push(Input { name: "forty-thousand-rows-for-batch-size-1", files: vec![uniq(40_000, &mut rng)], same_path_twice: false, terminators: 0 });
     out.push(Input { name: "one-row", files: vec![vec![("solo".to_string(), 77)]], same_path_twice: false, terminators: 0 });
@@ -892,7 +916,7 @@ pub fn run(ctx: &Ctx) -> i32 {
         ev,
         Spec {
             level: "exploration",
-            rule: "(for inputs without repeated keys every third run is also compared byte for byte with the command line's own `--sorted --force` build of the sorted data, half of them written over an existing longer file) one evaluation = one run of the real `fst set|map` binary (unsorted mode) as a subprocess with seeded 0-2 ms delays injected at channel send/receive and around batch construction (hook H4): exit status 0, output opens and verify()s, keys == distinct input keys, every value == sum/max/min over ALL rows of its key, and for inputs without repeated keys the output bytes equal a sorted library build; the H4 batch trace is parsed into the merge tree (which leaf batches met in which union, per generation) and the worker assignment, and an offline conservation checker runs over it and records anomalies as evidence without judging them (the leaf batches together hold between #distinct keys and #rows rows, every intermediate file produced once and consumed by exactly one union, exactly one unconsumed result); inputs: 17 shapes (CRLF line endings, input files without a final newline, the same path listed twice in a row, no repeats, repeats far apart, adjacent repeats incl. identical rows, three input files, five input files of which three are empty, one row, empty, five keys x 200 rows, all identical rows, sorted, reverse sorted, 3000 (thorough 10^5) rows with 30% repeats) x batch sizes {1,2,3,7,all} x fd-limit {2,3,15} x threads {1,2,5,16} x {set,sum,max,min}, a quarter of the runs overwriting an existing longer destination file (--force): a systematic core (every input x mode x batch size) plus random combinations; one fixed configuration is repeated under 24 (200) delay seeds to count how many distinct merge trees scheduling alone produces; thorough adds ThreadSanitizer-instrumented and valgrind-memcheck runs; non-trivial = every run; distinct_nontrivial counts runs (distinct parameter/seed combinations) plus distinct merge trees",
+            rule: "(for inputs without repeated keys every third run is also compared byte for byte with the command line's own `--sorted --force` build of the sorted data, half of them written over an existing longer file) one evaluation = one run of the real `fst set|map` binary (unsorted mode) as a subprocess with seeded 0-2 ms delays injected at channel send/receive and around batch construction (hook H4): exit status 0, output opens and verify()s, keys == distinct input keys, every value == sum/max/min over ALL rows of its key, and for inputs without repeated keys the output bytes equal a sorted library build; the H4 batch trace is parsed into the merge tree (which leaf batches met in which union, per generation) and the worker assignment, and an offline conservation checker runs over it and records anomalies as evidence without judging them (the leaf batches together hold between #distinct keys and #rows rows, every intermediate file produced once and consumed by exactly one union, exactly one unconsumed result); inputs: 19 shapes (CRLF line endings, two CRLF files of 160 KB whose line endings straddle every multiple of 4096 bytes (CR last before / LF last before / CR first after the boundary; solved for the lines of `fst set` and of `fst map`), input files without a final newline, the same path listed twice in a row, no repeats, repeats far apart, adjacent repeats incl. identical rows, three input files, five input files of which three are empty, one row, empty, five keys x 200 rows, all identical rows, sorted, reverse sorted, 3000 (thorough 10^5) rows with 30% repeats) x batch sizes {1,2,3,7,all} x fd-limit {2,3,15} x threads {1,2,5,16} x {set,sum,max,min}, a quarter of the runs overwriting an existing longer destination file (--force): a systematic core (every input x mode x batch size) plus random combinations; one fixed configuration is repeated under 24 (200) delay seeds to count how many distinct merge trees scheduling alone produces; thorough adds ThreadSanitizer-instrumented and valgrind-memcheck runs; non-trivial = every run; distinct_nontrivial counts runs (distinct parameter/seed combinations) plus distinct merge trees",
             assumptions: vec!["keys are [a-z0-9]{1,12} (no CSV quoting, no empty lines), values < 2^32 so sums cannot overflow; fd-limit 1 is excluded as in the statement".into(), "interleavings are sampled, not enumerated: the evidence reports how many distinct groupings were actually observed".into(), "a subprocess hitting the 120 s watchdog is inconclusive, never a violation; a deadlock is reported only on logical quiescence (every thread in state S and zero CPU ticks consumed over 8 consecutive one-second samples), not on elapsed time".into()],
             floors: {
                 // the merge-tree numbers come from hook H4 in fst-bin/src/merge.rs; a tree whose merge code no longer emits the trace
